@@ -39,30 +39,84 @@ def nativeOfId (id : Nat) : Option Native :=
   | 0x12 => some .time | 0x13 => some .smallint | 0x14 => some .tinyint | 0x15 => some .duration
   | _ => none
 
-/-! ### custom type strings -/
+/-! ### custom type strings
+
+The Rust parser works on a `&str` with `char` predicates.  The model works on the list of the string's Unicode
+scalars (`CU`: the scalar's UTF-8 bytes plus its class).  For ASCII the class is computed here; for the other
+scalars `char::is_alphanumeric` / `char::is_whitespace` are tables of the Rust standard library that the model does
+not carry: they are a PARAMETER (`uni`, a table from UTF-8 bytes to class, kept in the reader state; the harness
+supplies it per case, the theorems hold for every table).  All slicing of the Rust code (`&self.s[idx..]`) happens at
+positions returned by `str::find` / `strip_prefix`, i.e. at scalar boundaries, which is what list operations on
+scalars express; byte-level chunking happens only in `from_hex` (modelled on the bytes, with its `unwrap`). -/
 
 def MAX_TYPE_NESTING_DEPTH : Nat := 128
+
+/-- Errors of the custom type parser: a `CustomTypeParseError` kind, or a panic of the Rust code. -/
+inductive CtErr where
+  | kind (k : String)
+  | panic (site : String)
+  deriving Repr
+
+abbrev CtRes (α : Type) := Except CtErr α
+
+/-- One Unicode scalar of the type string. -/
+structure CU where
+  bytes : Bytes
+  cls : UCls
+  deriving Repr
+
+abbrev Str := List CU
 
 def isWhite (b : UInt8) : Bool := b = 0x20 ∨ (0x09 ≤ b ∧ b ≤ 0x0D)
 def isDigit (b : UInt8) : Bool := 0x30 ≤ b ∧ b ≤ 0x39
 def isAlpha (b : UInt8) : Bool := (0x41 ≤ b ∧ b ≤ 0x5A) ∨ (0x61 ≤ b ∧ b ≤ 0x7A)
 def isHexDigit (b : UInt8) : Bool := isDigit b ∨ (0x41 ≤ b ∧ b ≤ 0x46) ∨ (0x61 ≤ b ∧ b ≤ 0x66)
-/-- `is_identifier_char`: alphanumeric or one of `+ - _ . &`. -/
+/-- `is_identifier_char` on ASCII: alphanumeric or one of `+ - _ . &`. -/
 def isIdent (b : UInt8) : Bool :=
   isAlpha b ∨ isDigit b ∨ b = 0x2B ∨ b = 0x2D ∨ b = 0x5F ∨ b = 0x2E ∨ b = 0x26
 
-def skipWhite (s : Bytes) : Bytes := s.dropWhile isWhite
-def readIdent (s : Bytes) : Bytes × Bytes := (s.takeWhile isIdent, s.dropWhile isIdent)
+/-- `char::is_whitespace`. -/
+def CU.isWhite (u : CU) : Bool :=
+  match u.bytes with
+  | [b] => C08.isWhite b
+  | _ => u.cls == .white
+/-- `CustomTypeParser::is_identifier_char`. -/
+def CU.isIdent (u : CU) : Bool :=
+  match u.bytes with
+  | [b] => C08.isIdent b
+  | _ => u.cls == .alnum
+/-- `char::is_ascii_digit`. -/
+def CU.isDigit (u : CU) : Bool :=
+  match u.bytes with
+  | [b] => C08.isDigit b
+  | _ => false
+
+/-- `str::as_bytes`. -/
+def bytesOf (s : Str) : Bytes := s.flatMap (·.bytes)
+
+/-- Length of the UTF-8 sequence introduced by a lead byte. -/
+def utf8Len (b : UInt8) : Nat := if b < 0x80 then 1 else if b < 0xE0 then 2 else if b < 0xF0 then 3 else 4
+
+/-- The scalars of a (validated) UTF-8 string. -/
+def scalars : Nat → Bytes → List Bytes
+  | 0, _ => []
+  | _, [] => []
+  | fuel + 1, b :: rest => (b :: rest.take (utf8Len b - 1)) :: scalars fuel (rest.drop (utf8Len b - 1))
+
+def toStr (uni : List (Bytes × UCls)) (s : Bytes) : Str :=
+  (scalars s.length s).map (fun bs => ⟨bs, match uni.find? (fun p => p.1 == bs) with
+    | some p => p.2
+    | none => .other⟩)
+
+def skipWhite (s : Str) : Str := s.dropWhile CU.isWhite
+def readIdent (s : Str) : Str × Str := (s.takeWhile CU.isIdent, s.dropWhile CU.isIdent)
 
 def asciiBytes (s : String) : Bytes := s.toList.map (fun c => UInt8.ofNat c.toNat)
 
-def stripPrefix (p s : Bytes) : Option Bytes :=
-  if p.isPrefixOf s then some (s.drop p.length) else none
-
-/-- `ParserState::accept(c)` for a one-character literal. -/
-def accept (c : UInt8) (s : Bytes) : Option Bytes :=
+/-- `ParserState::accept(c)` for a one-character ASCII literal. -/
+def accept (c : UInt8) (s : Str) : Option Str :=
   match s with
-  | b :: rest => if b = c then some rest else none
+  | u :: rest => if u.bytes = [c] then some rest else none
   | [] => none
 
 def LPAREN : UInt8 := 0x28
@@ -71,7 +125,7 @@ def COMMA : UInt8 := 0x2C
 def COLON : UInt8 := 0x3A
 
 /-- `skip_blank_and_comma`: blanks, at most ONE comma, blanks. -/
-def skipBlankComma (s : Bytes) : Bytes :=
+def skipBlankComma (s : Str) : Str :=
   let s := skipWhite s
   match accept COMMA s with
   | some s' => skipWhite s'
@@ -79,10 +133,12 @@ def skipBlankComma (s : Bytes) : Bytes :=
 
 def marshalPrefix : Bytes := asciiBytes "org.apache.cassandra.db.marshal."
 
-def stripMarshal (name : Bytes) : Bytes := (stripPrefix marshalPrefix name).getD name
+/-- `name.strip_prefix("org.apache.cassandra.db.marshal.").unwrap_or(name)` on the bytes of the name. -/
+def stripMarshal (name : Bytes) : Bytes :=
+  if marshalPrefix.isPrefixOf name then name.drop marshalPrefix.length else name
 
 /-- `get_simple_abstract_type`. -/
-def simpleType (name : Bytes) : Except String Ty :=
+def simpleType (name : Bytes) : CtRes Ty :=
   let n := stripMarshal name
   let tbl : List (String × Native) := [
     ("AsciiType", .ascii), ("BooleanType", .boolean), ("BytesType", .blob), ("CounterColumnType", .counter),
@@ -93,7 +149,7 @@ def simpleType (name : Bytes) : Except String Ty :=
     ("TinyIntType", .tinyint), ("TimeType", .time), ("TimestampType", .timestamp)]
   match tbl.find? (fun p => asciiBytes p.1 == n) with
   | some p => .ok (.native p.2)
-  | none => .error "unksimple"
+  | none => .error (.kind "unksimple")
 
 def hexVal (b : UInt8) : Nat :=
   if isDigit b then b.toNat - 0x30 else if b ≥ 0x61 then b.toNat - 0x61 + 10 else b.toNat - 0x41 + 10
@@ -102,13 +158,29 @@ def hexPairs : Bytes → Bytes
   | a :: b :: rest => UInt8.ofNat (hexVal a * 16 + hexVal b) :: hexPairs rest
   | _ => []
 
-/-- `CustomTypeParser::from_hex` followed by `String::from_utf8`. -/
-def fromHexUtf8 (s : Bytes) : Except String Bytes :=
-  if !s.all isHexDigit then .error "badhex"
-  else if s.length % 2 ≠ 0 then .error "badhex"
-  else
-    let bs := hexPairs s
-    if utf8ok bs then .ok bs else .error "utf8"
+/-- `std::str::from_utf8(&[a, b]).is_ok()`: two ASCII bytes, or one two-byte scalar. -/
+def utf8ok2 (a b : UInt8) : Bool := (a < 0x80 ∧ b < 0x80) ∨ (0xC2 ≤ a ∧ a ≤ 0xDF ∧ 0x80 ≤ b ∧ b ≤ 0xBF)
+
+/-- The chunk loop of `from_hex`: `u8::from_str_radix(std::str::from_utf8(chunk).unwrap(), 16)` for every 2-byte
+chunk — the `unwrap` PANICS on a chunk that is not UTF-8; a chunk that is not two hex digits is `BadHexString`
+(`from_str_radix` also accepts a leading `+`, which the scan in `fromHex` excludes beforehand). -/
+def hexChunks : Bytes → CtRes Bytes
+  | a :: b :: rest =>
+    if !utf8ok2 a b then .error (.panic "from_hex: from_utf8(chunk).unwrap()")
+    else if !(isHexDigit a && isHexDigit b) then .error (.kind "badhex")
+    else match hexChunks rest with
+      | .ok r => .ok (UInt8.ofNat (hexVal a * 16 + hexVal b) :: r)
+      | .error e => .error e
+  | _ => .ok []
+
+/-- `CustomTypeParser::from_hex` followed by `String::from_utf8`: first the scan `c.is_ascii_hexdigit()` over the
+chars (for a `&str`: every byte is an ASCII hex digit), then the even length, then the chunks. -/
+def fromHexUtf8 (s : Bytes) : CtRes Bytes :=
+  if !s.all isHexDigit then .error (.kind "badhex")
+  else if s.length % 2 ≠ 0 then .error (.kind "badhex")
+  else match hexChunks s with
+    | .error e => .error e
+    | .ok bs => if utf8ok bs then .ok bs else .error (.kind "utf8")
 
 /-- `usize::from_str_radix(name, 16).is_ok()`: optional leading `+`, at least one digit, all hex, value < 2^64. -/
 def usizeHexOk (name : Bytes) : Bool :=
@@ -119,21 +191,21 @@ def usizeHexOk (name : Bytes) : Bool :=
     (digits.foldl (fun a b => a * 16 + hexVal b) 0) < 2 ^ 64
 
 /-- `ParserState::parse_u16`: the maximal run of ASCII digits must parse as `u16`. -/
-def parseU16 (s : Bytes) : Option (Nat × Bytes) :=
-  let ds := s.takeWhile isDigit
+def parseU16 (s : Str) : Option (Nat × Str) :=
+  let ds := bytesOf (s.takeWhile CU.isDigit)
   let v := ds.foldl (fun a b => a * 10 + (b.toNat - 0x30)) 0
-  if ds.isEmpty || v > 65535 then none else some (v, s.dropWhile isDigit)
+  if ds.isEmpty || v > 65535 then none else some (v, s.dropWhile CU.isDigit)
 
-abbrev CtParse := Bool → Bytes → Except String (Ty × Bytes)
+abbrev CtParse := Bool → Str → CtRes (Ty × Str)
 
 /-- The iterator of `get_type_parameters` run to its end: every item it yields (it stops at `)` or right after its
 first error) and the parser position afterwards.  `n` bounds the number of items (each successful item consumes at
-least one byte, so `s.length + 1` is enough; exhaustion is reported as an `Err` item and never happens). -/
-def paramsLoop (parse : CtParse) (frozen : Bool) : Nat → Bytes → List (Except String Ty) × Bytes
-  | 0, s => ([.error "loopfuel"], s)
+least one scalar, so `s.length + 1` is enough; exhaustion is reported as an `Err` item and never happens). -/
+def paramsLoop (parse : CtParse) (frozen : Bool) : Nat → Str → List (CtRes Ty) × Str
+  | 0, s => ([.error (.kind "loopfuel")], s)
   | n + 1, s =>
     let s := skipBlankComma s
-    if s.isEmpty then ([.error "eof"], s)
+    if s.isEmpty then ([.error (.kind "eof")], s)
     else match accept RPAREN s with
       | some s' => ([], s')
       | none =>
@@ -144,23 +216,22 @@ def paramsLoop (parse : CtParse) (frozen : Bool) : Nat → Bytes → List (Excep
           (.ok t :: r, s'')
 
 /-- `get_type_parameters`. -/
-def typeParameters (parse : CtParse) (frozen : Bool) (s : Bytes) : Except String (List (Except String Ty) × Bytes) :=
+def typeParameters (parse : CtParse) (frozen : Bool) (s : Str) : CtRes (List (CtRes Ty) × Str) :=
   if s.isEmpty then .ok ([], s)
   else match accept LPAREN s with
-    | none => .error "unexpchar"
+    | none => .error (.kind "unexpchar")
     | some s' => .ok (paramsLoop parse frozen (s'.length + 1) s')
 
 /-- `get_n_type_parameters::<N>`: all items of the iterator are collected (a failed item ends it); exactly `N` items
 are required, otherwise `InvalidParameterCount { actual = number of items, expected = N }`. -/
-def nTypeParameters (parse : CtParse) (frozen : Bool) (n : Nat) (s : Bytes) :
-    Except String (List (Except String Ty) × Bytes) :=
+def nTypeParameters (parse : CtParse) (frozen : Bool) (n : Nat) (s : Str) : CtRes (List (CtRes Ty) × Str) :=
   match typeParameters parse frozen s with
   | .error e => .error e
   | .ok (items, s') =>
     if items.length = n then .ok (items, s')
-    else .error s!"paramcount:{items.length}:{n}"
+    else .error (.kind s!"paramcount:{items.length}:{n}")
 
-def collectOk : List (Except String Ty) → Except String (List Ty)
+def collectOk : List (CtRes Ty) → CtRes (List Ty)
   | [] => .ok []
   | .error e :: _ => .error e
   | .ok t :: rest => match collectOk rest with
@@ -168,20 +239,20 @@ def collectOk : List (Except String Ty) → Except String (List Ty)
     | .error e => .error e
 
 /-- The field loop of `get_udt_parameters`. -/
-def udtFields (parse : CtParse) (frozen : Bool) : Nat → Bytes → Except String (List (Bytes × Ty) × Bytes)
-  | 0, _ => .error "loopfuel"
+def udtFields (parse : CtParse) (frozen : Bool) : Nat → Str → CtRes (List (Bytes × Ty) × Str)
+  | 0, _ => .error (.kind "loopfuel")
   | n + 1, s =>
     let s := skipBlankComma s
-    if s.isEmpty then .error "eof"
+    if s.isEmpty then .error (.kind "eof")
     else match accept RPAREN s with
       | some s' => .ok ([], s')
       | none =>
         let (id, s1) := readIdent s
-        match fromHexUtf8 id with
+        match fromHexUtf8 (bytesOf id) with
         | .error e => .error e
         | .ok fname =>
           match accept COLON s1 with
-          | none => .error "unexpchar"
+          | none => .error (.kind "unexpchar")
           | some s2 =>
             match parse frozen s2 with
             | .error e => .error e
@@ -190,27 +261,31 @@ def udtFields (parse : CtParse) (frozen : Bool) : Nat → Bytes → Except Strin
               | .error e => .error e
               | .ok (r, s4) => .ok ((fname, t) :: r, s4)
 
+/-- One-parameter forms (`ListType`, `SetType`, `FrozenType`). -/
+def oneParam (parse : CtParse) (frozen : Bool) (s : Str) : CtRes (Ty × Str) :=
+  match nTypeParameters parse frozen 1 s with
+  | .ok ([.ok t], s') => .ok (t, s')
+  | .ok ([.error e], _) => .error e
+  | .ok _ => .error (.kind "impossible")
+  | .error e => .error e
+
 /-- `get_complex_abstract_type` (`s` starts with `(`). -/
-def complexType (parse : CtParse) (frozen : Bool) (name : Bytes) (s : Bytes) : Except String (Ty × Bytes) :=
+def complexType (parse : CtParse) (frozen : Bool) (name : Bytes) (s : Str) : CtRes (Ty × Str) :=
   let n := stripMarshal name
   if n == asciiBytes "ListType" then
-    match nTypeParameters parse frozen 1 s with
-    | .ok ([.ok t], s') => .ok (.list frozen t, s')
-    | .ok ([.error e], _) => .error e
-    | .ok _ => .error "impossible"
+    match oneParam parse frozen s with
+    | .ok (t, s') => .ok (.list frozen t, s')
     | .error e => .error e
   else if n == asciiBytes "SetType" then
-    match nTypeParameters parse frozen 1 s with
-    | .ok ([.ok t], s') => .ok (.set frozen t, s')
-    | .ok ([.error e], _) => .error e
-    | .ok _ => .error "impossible"
+    match oneParam parse frozen s with
+    | .ok (t, s') => .ok (.set frozen t, s')
     | .error e => .error e
   else if n == asciiBytes "MapType" then
     match nTypeParameters parse frozen 2 s with
     | .ok ([.ok k, .ok v], s') => .ok (.map frozen k v, s')
     | .ok ([.error e, _], _) => .error e
     | .ok ([.ok _, .error e], _) => .error e
-    | .ok _ => .error "impossible"
+    | .ok _ => .error (.kind "impossible")
     | .error e => .error e
   else if n == asciiBytes "TupleType" then
     match typeParameters parse frozen s with
@@ -218,74 +293,68 @@ def complexType (parse : CtParse) (frozen : Bool) (name : Bytes) (s : Bytes) : E
     | .ok (items, s') =>
       match collectOk items with
       | .error e => .error e
-      | .ok [] => .error "paramcount:0:1"
+      | .ok [] => .error (.kind "paramcount:0:1")
       | .ok ts => .ok (.tuple ts, s')
   else if n == asciiBytes "VectorType" then
     match accept LPAREN s with
-    | none => .error "unexpchar"
+    | none => .error (.kind "unexpchar")
     | some s1 =>
       let s2 := skipBlankComma s1
-      if (accept RPAREN s2).isSome then .error "paramcount:0:2"
+      if (accept RPAREN s2).isSome then .error (.kind "paramcount:0:2")
       else match parse frozen s2 with
         | .error e => .error e
         | .ok (t, s3) =>
           match parseU16 (skipBlankComma s3) with
-          | none => .error "int"
+          | none => .error (.kind "int")
           | some (dim, s4) =>
             -- fix 2a278cb: only positive dimensions (a zero-sized element could be "read" from no input)
-            if dim = 0 then .error "zerodim" else
+            if dim = 0 then .error (.kind "zerodim") else
             match accept RPAREN s4 with
-            | none => .error "unexpchar"
+            | none => .error (.kind "unexpchar")
             | some s5 => .ok (.vector t dim, s5)
   else if n == asciiBytes "UserType" then
     match accept LPAREN s with
-    | none => .error "unexpchar"
+    | none => .error (.kind "unexpchar")
     | some s1 =>
       let (ks, s2) := readIdent (skipBlankComma s1)
       let (hexName, s3) := readIdent (skipBlankComma s2)
-      match fromHexUtf8 hexName with
+      match fromHexUtf8 (bytesOf hexName) with
       | .error e => .error e
       | .ok tname =>
         match udtFields parse frozen (s3.length + 1) s3 with
         | .error e => .error e
-        | .ok (fields, s4) => .ok (.udt frozen ks tname fields, s4)
-  else if n == asciiBytes "FrozenType" then
-    match nTypeParameters parse true 1 s with
-    | .ok ([.ok t], s') => .ok (t, s')
-    | .ok ([.error e], _) => .error e
-    | .ok _ => .error "impossible"
-    | .error e => .error e
-  else .error "unkcomplex"
+        | .ok (fields, s4) => .ok (.udt frozen (bytesOf ks) tname fields, s4)
+  else if n == asciiBytes "FrozenType" then oneParam parse true s
+  else .error (.kind "unkcomplex")
 
 /-- `do_parse` with `fuel = MAX_TYPE_NESTING_DEPTH - self.depth`. -/
 def doParse : Nat → CtParse
-  | 0 => fun _ _ => .error "depth"
+  | 0 => fun _ _ => .error (.kind "depth")
   | fuel + 1 => fun frozen s =>
     let s := skipWhite s
     let (name, s1) := readIdent s
     if name.isEmpty then
-      if !s1.isEmpty then .error "unkcomplex" else .ok (.native .blob, s1)
+      if !s1.isEmpty then .error (.kind "unkcomplex") else .ok (.native .blob, s1)
     else
       -- optional `<hex>:` prefix, ignored
-      let r : Except String (Bytes × Bytes) :=
+      let r : CtRes (Str × Str) :=
         match accept COLON s1 with
-        | some s2 => if usizeHexOk name then .ok (readIdent s2) else .error "badhex"
+        | some s2 => if usizeHexOk (bytesOf name) then .ok (readIdent s2) else .error (.kind "badhex")
         | none => .ok (name, s1)
       match r with
       | .error e => .error e
       | .ok (name, s2) =>
         let s3 := skipWhite s2
-        if (accept LPAREN s3).isSome then complexType (doParse fuel) frozen name s3
-        else match simpleType name with
+        if (accept LPAREN s3).isSome then complexType (doParse fuel) frozen (bytesOf name) s3
+        else match simpleType (bytesOf name) with
           | .ok t => .ok (t, s3)
           | .error e => .error e
 
-/-- `CustomTypeParser::parse`.  `unmodelled` when the string is not ASCII. -/
-def customParse (s : Bytes) : Except String Ty :=
-  if s.any (· ≥ 0x80) then .error "unmodelled"
-  else match doParse MAX_TYPE_NESTING_DEPTH false s with
-    | .ok (t, _) => .ok t
-    | .error e => .error e
+/-- `CustomTypeParser::parse` on a validated UTF-8 string, with the class table `uni` for its non-ASCII scalars. -/
+def customParse (uni : List (Bytes × UCls)) (s : Bytes) : CtRes Ty :=
+  match doParse MAX_TYPE_NESTING_DEPTH false (toStr uni s) with
+  | .ok (t, _) => .ok t
+  | .error e => .error e
 
 /-- Nesting depth of `do_parse` calls that built a type (ghost; 1 for a simple type). -/
 def customDepthBound : Nat := MAX_TYPE_NESTING_DEPTH
@@ -301,9 +370,11 @@ def deserType : Nat → M Ty
     match id with
     | 0x0000 => do
       let str ← tag "type.customname" readString
-      match customParse str with
+      let uni ← getUni
+      match customParse uni str with
       | .ok t => do noteDepth (129 - fuel + customDepthBound); pure t
-      | .error e => fail ("type.ct." ++ e)
+      | .error (.kind e) => fail ("type.ct." ++ e)
+      | .error (.panic site) => panicAt site
     | 0x0020 => do let t ← deserType fuel; pure (.list false t)
     | 0x0021 => do let k ← deserType fuel; let v ← deserType fuel; pure (.map false k v)
     | 0x0022 => do let t ← deserType fuel; pure (.set false t)
